@@ -1,5 +1,6 @@
 import BtcwVerif.Lemmas.KMap
 import BtcwVerif.Lemmas.Balance
+import BtcwVerif.Lemmas.Calls
 /-!
 # C12 — a leased output stays out of reach until released or expired
 
@@ -344,6 +345,17 @@ theorem C12_excluded_balance_partial (s : Store) (hinv : Inv s) (now : Nat) (mat
       rw [hb] at this; cases this
   · intro c hl; simp [countsMined, hl]
   · intro e hl; simp [countsUnmined, hl]
+
+/-- **excluded from the balance, after every chain-consistent history** (reorgs included): `Balance` is the sum over
+the credits admitted by `countsMined` / `countsUnmined`, and both reject every output leased at that instant. -/
+theorem C12_excluded_balance (ops : List (Nat × Call)) (hp : PreAll Store.empty ops) (now : Nat) (mat m sy : Int) :
+    balance (runCalls Store.empty ops) now mat m sy = .ok (storeTruth (runCalls Store.empty ops) now mat m sy) ∧
+    (∀ c : CInfo, isLocked (runCalls Store.empty ops) c.key.outPoint now = true →
+        countsMined (runCalls Store.empty ops) now m sy mat c = false) ∧
+    (∀ e : OutPoint × UCredit, isLocked (runCalls Store.empty ops) e.1 now = true →
+        countsUnmined (runCalls Store.empty ops) now e = false) :=
+  ⟨balance_eq_storeTruth _ (inv_runCalls ops hp) now mat m sy,
+   fun c hl => by simp [countsMined, hl], fun e hl => by simp [countsUnmined, hl]⟩
 
 /-! ### the expiry handed to the caller is the expiry that is stored (DESIGN §7-F8, fixed in /repo 4c73b71) -/
 
